@@ -47,6 +47,19 @@ def plan(tier):
     n_pairs = 40 if tier == "quick" else 300
     tries = 0
     seen = set()
+    # the narrow common reps admit only small integer factors (2147*k <= max): make sure they are present in every run
+    small = [(Fraction(1), Fraction(2)), (Fraction(12), Fraction(1)), (Fraction(1, 2), Fraction(1, 3)), (Fraction(3), Fraction(2)), (Fraction(2, 3), Fraction(1)), (Fraction(1), Fraction(1, 10)),
+             (Fraction(7, 4), Fraction(1)), (Fraction(1, 3), Fraction(1)), (Fraction(9, 5), Fraction(3)), (Fraction(1, 10), Fraction(1, 2))]
+    for rp in [("int16_t", "int16_t"), ("uint16_t", "uint16_t"), ("int8_t", "int16_t"), ("uint16_t", "uint8_t")]:
+        for s1, s2 in rnd.sample(small, 5 if tier == "quick" else 10):
+            g = fgcd(s1, s2)
+            k1, k2 = s1 / g, s2 / g
+            cname, cb = common_rep(*rp)
+            if 2147 * int(max(k1, k2)) > cmax(cb, INT_REPS[rp[0]][1]):
+                continue
+            seen.add((s1, s2) + rp)
+            insts.append({"id": iid, "kind": "int", "s1": s1, "s2": s2, "r1": rp[0], "r2": rp[1], "k1": int(k1), "k2": int(k2), "g": g})
+            iid += 1
     while len([i for i in insts if i["kind"] == "int"]) < n_pairs * 3 and tries < 20000:
         tries += 1
         s1, s2 = rnd.choice(SCALES), rnd.choice(SCALES)
